@@ -44,8 +44,10 @@ REAL_VS_STUB = {
                                 'GC timing (disabled, explicit collect in the ledger)'],
 }
 EXPECTED_PROBES = ('is_leaf', 'flatten_func', 'unflatten_func', 'map_fn', 'key.__hash__', 'key.__lt__', 'key.__eq__',
-                   'meta.__eq__', 'meta.__hash__', 'meta.__repr__', 'f_node', 'f_leaf', 'leaves.__next__',
-                   'children.__next__', 'nt.__new__')
+                   'meta.__ne__', 'meta.__repr__', 'f_node', 'f_leaf', 'leaves.__next__',
+                   'children.__next__', 'nt.__new__') + tuple('op:' + n for n in OP_NAMES)
+# (metadata __eq__ / __hash__ are not in the list: the engine compares custom metadata with `!=` only
+#  (richcomparison.cpp) and deliberately does not hash it (hashing.cpp:42), so those two can never fire)
 
 V = _C._verif if hasattr(_C, '_verif') else None
 K_CAP = 160
@@ -174,6 +176,7 @@ def run_job(job, io):
         viol('unstable', '%s@baseline' % opname, 'two fault-free executions differ: %s; events %d vs %d' % (d, n_events, len(events2)))
     for lab in labels:
         probes[lab] = probes.get(lab, 0) + 1
+    probes['op:' + opname] = 1
     tree_before = clone(scn.tree)
     spec_obs = (hash(scn.spec), repr(scn.spec), hash(scn.prefix_spec), repr(scn.prefix_spec))
     tracked = scn.tracked()
